@@ -31,7 +31,7 @@ func init() {
 	})
 	Register(&Rule{
 		Name:  "R-NO-STUCK-WAIT",
-		Props: []string{"C03"},
+		Props: []string{"C03", "C04"},
 		Min:   6,
 		Doc: "known deadlock shapes of the multiplexed receiver: (VISIBLE) RecvManifestMultiStream performs no blocking AcceptStream on its own goroutine other than the control stream's (QUIC shows a stream to the acceptor only after the opener wrote on it, " +
 			"and the sender writes on a data stream only when it has a chunk for it); (ORPHAN) every fileReady.wait is reached only after the set of completed files was consulted for that key and the completed case was diverted; " +
@@ -960,6 +960,33 @@ func runNoStuckWait(c *Ctx) {
 					}
 				}
 				c.Check(hit, key, call.Pos(), "the file is finalised (ok) exactly when this step reports it complete", "the 'file complete' result of this step does not lead to finalizeFile(state, true, ...): the file is never acknowledged and the sender never finishes")
+				// ... and the result is looked at on every path: none leaves the step (next frame, return) with `done` untested
+				if doneObj != nil {
+					self := r.Node()
+					consumed := allPathsHit(cfg, r, func(nd ast.Node) bool {
+						e, isExpr := nd.(ast.Expr)
+						if !isExpr {
+							return false
+						}
+						h := false
+						ast.Inspect(e, func(m ast.Node) bool {
+							if id, ok := m.(*ast.Ident); ok && info.ObjectOf(id) == doneObj {
+								h = true
+							}
+							return true
+						})
+						return h
+					}, func(nd ast.Node) bool {
+						if nd == self {
+							return true
+						}
+						_, isRet := nd.(*ast.ReturnStmt)
+						return isRet
+					})
+					c.Check(consumed, key+"/consumed", call.Pos(), "the 'file complete' result is tested on every path behind the step",
+						f.Name+" can go on to the next frame (or return) without looking at the 'file complete' result of "+strings.TrimPrefix(g.Name, "transfer.(*recvFileStateMux).")+
+							": when the frame that completes a file is one that adds no new chunk (the re-sent chunk of a resumed file arriving behind FileEnd), nobody finalises the file, no FileDone goes out and both sides wait for ever")
+				}
 			})
 			for _, k := range f.Kids {
 				visit(k)
